@@ -940,6 +940,18 @@ class BaseMatcher:
             lattice[m_next.key] = m_next
             return True
 
+    @staticmethod
+    def _file_ne(m_next, lattice):
+        """File a non-emitting matching, or merge it into the entry with the same key. A stopped entry is only a
+        placeholder kept for debug output: a live matching that takes its place is ordered as a new entry."""
+        if m_next.key not in lattice:
+            lattice[m_next.key] = m_next
+        elif lattice[m_next.key].stop and not m_next.stop:
+            del lattice[m_next.key]
+            lattice[m_next.key] = m_next
+        else:
+            lattice[m_next.key].update(m_next)
+
     def _match_non_emitting_states_inner(self, cur_lattice, obs_idx, obs, obs_next, nb_ne,
                                          lattice_best, lattice_ne):
         # cur_lattice_new = dict()
@@ -972,14 +984,14 @@ class BaseMatcher:
                             if m_next.key in cur_lattice_new:
                                 if m_next.shortkey in lattice_best:
                                     if approx_leq(m_next.dist_obs, lattice_best[m_next.shortkey].dist_obs):
-                                        cur_lattice_new[m_next.key].update(m_next)
+                                        self._file_ne(m_next, cur_lattice_new)
                                     else:
                                         m_next.stop = True
                                         if __debug__ and logger.isEnabledFor(logging.DEBUG):
                                             logger.debug(f"   | Stopped trace: distance larger than best for key {m_next.shortkey}: "
                                                          f"{m_next.dist_obs} > {lattice_best[m_next.shortkey].dist_obs}")
                                 else:
-                                    cur_lattice_new[m_next.key].update(m_next)
+                                    self._file_ne(m_next, cur_lattice_new)
                             else:
                                 if m_next.shortkey in lattice_best:
                                     # if m_next.logprob > lattice_best[m_next.shortkey].logprob:
@@ -1037,7 +1049,7 @@ class BaseMatcher:
                                 if m_next.shortkey in lattice_best:
                                     # if m_next.logprob > lattice_best[m_next.shortkey].logprob:
                                     if m_next.dist_obs < lattice_best[m_next.shortkey].dist_obs:
-                                        cur_lattice_new[m_next.key] = m_next
+                                        self._file_ne(m_next, cur_lattice_new)
                                         lattice_best[m_next.shortkey] = m_next
                                         # lattice_toinsert.append(m_next)
                                     elif __debug__ and logger.isEnabledFor(logging.DEBUG):
@@ -1045,7 +1057,7 @@ class BaseMatcher:
                                         cur_lattice_new[m_next.key] = m_next
                                         # lattice_toinsert.append(m_next)
                                 else:
-                                    cur_lattice_new[m_next.key] = m_next
+                                    self._file_ne(m_next, cur_lattice_new)
                                     lattice_best[m_next.shortkey] = m_next
                                     # lattice_toinsert.append(m_next)
                             # cur_lattice_new.add(m_next)
